@@ -3,7 +3,7 @@
    itself on a plain map.  The programs may only look at the C11 projection: error class, the payload of a failed
    put-if-absent when Idx = 0, the first record of a limited iteration. *)
 From KB Require Import Base.Cases Model.Store Model.Adapters Model.C11Cases Model.Coder Model.BackendSeq
-  Proofs.Store Proofs.AdapterLists Proofs.Adapters.
+  Proofs.Store Proofs.AdapterLists Proofs.Adapters Proofs.Coder.
 Local Open Scope N_scope.
 
 (* ---------- the reference adapter: the contract on a plain map ---------- *)
@@ -26,11 +26,17 @@ Definition radapter : adapter := {|
   a_nil_empty := false
 |}.
 
-(* batches without compare-and-delete that write no empty value *)
+(* Everything below is relative to VP, the values a history may write: "not empty" for the adapters in general (TiKV
+   refuses an empty value, finding C12-F1), "anything" for the adapters that store empty values. *)
+Section Values.
+Variable VP : bytes -> Prop.
+Hypothesis HVP : forall v, v <> [] -> VP v.
+
+(* batches without compare-and-delete whose written values are admitted *)
 Definition bop_plain (o : bop) : Prop :=
   match o with
-  | PutIfNotExist _ v _ | Put _ v _ => v <> []
-  | CAS _ nv _ _ => nv <> []
+  | PutIfNotExist _ v _ | Put _ v _ => VP v
+  | CAS _ nv _ _ => VP nv
   | Del _ => True
   | DelCur _ _ _ => False
   end.
@@ -38,12 +44,7 @@ Definition bop_plain (o : bop) : Prop :=
 Definition plain_ok {A m} (S : sim A m) : Prop := forall ops, Forall bop_plain ops -> okb A m S ops.
 
 Lemma plain_ok_memkv : plain_ok sim_memkv.
-Proof.
-  intros ops H. cbn. first [exact I|eapply Forall_impl; [|exact H]; intros [] Ho; cbn in *; auto].
-Qed.
-
-Lemma plain_ok_tikv : plain_ok sim_tikv.
-Proof. intros ops H. cbn. eapply Forall_impl; [|exact H]. intros [] Ho; cbn in *; auto. Qed.
+Proof. intros ops H. exact I. Qed.
 
 Lemma plain_no_delcur ops : forall seen, Forall bop_plain ops -> written_before_delcur ops seen = false.
 Proof.
@@ -105,7 +106,7 @@ Section Indep.
 Context {A : adapter} {m : dcmode} (S : sim A m) (Hplain : plain_ok S).
 
 Definition Rel (s : a_state A) (r : store) : Prop :=
-  exists c, sim_R A m S s c /\ st c = r /\ sorted r /\ sorted (stamps c) /\ no_empty_vals r.
+  exists c, sim_R A m S s c /\ st c = r /\ sorted r /\ sorted (stamps c).
 
 Lemma rel_get s r k : Rel s r -> a_get A s k = get_result r k.
 Proof. intros (c & HR & <- & _). apply (sim_get A m S). exact HR. Qed.
@@ -148,7 +149,7 @@ Lemma rel_batch s r ops : Rel s r -> Forall bop_plain ops ->
      forall k' v' k v t rest, cf = Some (O, k', v') -> ops = PutIfNotExist k v t :: rest ->
        exists x, get r k = Some x /\ v' = canon_val x).
 Proof.
-  intros (c & HR & <- & Hs & Hz & Hne) Hp.
+  intros (c & HR & <- & Hs & Hz) Hp.
   destruct (sim_batch A m S s c ops HR (Hplain ops Hp)) as [Hproj Hrel].
   destruct (a_batch A s ops) as [[s' cl] cf]. cbn [fst snd] in *.
   unfold r_batch. destruct ops as [|o rest].
@@ -163,9 +164,7 @@ Proof.
     + subst w2. cbn [batch_proj_ok] in Hproj. apply andb_true_iff in Hproj as [Hc _]. destruct cl; try discriminate.
       cbn [st]. split; [reflexivity|]. split; [|discriminate].
       destruct (batch_go_sorted _ _ _ _ _ _ _ _ Hs Hz E1) as [Hw1 Hz1].
-      exists (mk_cstore w1 z1 (clock c + 1)). cbn [st stamps]. repeat split; try assumption.
-      eapply batch_go_no_empty; [exact Hne| |exact E1].
-      eapply Forall_impl; [|exact Hp]. intros [] Hb; cbn in *; auto.
+      exists (mk_cstore w1 z1 (clock c + 1)). cbn [st stamps]. repeat split; assumption.
     + injection Hpl as <- <-. cbn [batch_proj_ok] in Hproj. apply andb_true_iff in Hproj as [Hc Hcf].
       destruct cl; try discriminate. split; [reflexivity|]. subst s'. split.
       * exists c. repeat split; assumption.
@@ -183,7 +182,6 @@ End Indep.
 
 (* ---------- the request programs ---------- *)
 
-From KB Require Import Proofs.Coder.
 
 Lemma be64_nonempty r : be64 r <> [].
 Proof. intros H. apply (f_equal (@length N)) in H. unfold be64 in H. rewrite be_length in H. discriminate. Qed.
@@ -215,15 +213,15 @@ Proof.
 Qed.
 
 (* creator/naive.go *)
-Lemma rel_creator s r key val rev : RelS s r -> val <> [] ->
+Lemma rel_creator s r key val rev : RelS s r -> VP val ->
   exists s' r' e, creator_create A s key val rev = (s', e) /\ creator_create radapter r key val rev = (r', e) /\ RelS s' r'.
 Proof.
   intros HR Hv. unfold creator_create, create_batch, update_batch.
   set (rk := encode key 0). set (ok := encode key rev). set (rb := be64 rev).
   assert (Hp1 : Forall bop_plain [PutIfNotExist rk rb 0; Put ok val 0]).
-  { repeat constructor; cbn [bop_plain]; [apply be64_nonempty|exact Hv]. }
+  { repeat constructor; cbn [bop_plain]; [apply HVP, be64_nonempty|exact Hv]. }
   assert (Hp2 : forall old, Forall bop_plain [CAS rk rb old 0; Put ok val 0]).
-  { intros old. repeat constructor; cbn; [apply be64_nonempty|exact Hv]. }
+  { intros old. repeat constructor; cbn [bop_plain]; [apply HVP, be64_nonempty|exact Hv]. }
   destruct (rel_batch2 s r _ HR Hp1) as (s1 & cl & cf & r1 & E1 & E1' & HR1 & Hcl & Hc).
   cbn [a_batch radapter]. rewrite E1, E1'.
   (* what happens once the stored index value is known *)
@@ -300,7 +298,7 @@ Qed.
 Definition RelB (st : bstate A) (rt : bstate radapter) : Prop :=
   RelS (k_st A st) (k_st radapter rt) /\ k_rev A st = k_rev radapter rt.
 
-Lemma rel_do_create st rt key val : RelB st rt -> val <> [] ->
+Lemma rel_do_create st rt key val : RelB st rt -> VP val ->
   exists st' rt' e rev, do_create A st key val = (st', e, rev) /\ do_create radapter rt key val = (rt', e, rev) /\ RelB st' rt'.
 Proof.
   intros [HR Hrev] Hv. unfold do_create, deal. rewrite Hrev.
@@ -308,7 +306,7 @@ Proof.
   rewrite E1, E2. do 4 eexists. fin_eq. close_rel HR'.
 Qed.
 
-Lemma rel_do_update st rt old key val : RelB st rt -> val <> [] ->
+Lemma rel_do_update st rt old key val : RelB st rt -> VP val ->
   exists st' rt' e rev, do_update A st old key val = (st', e, rev) /\ do_update radapter rt old key val = (rt', e, rev) /\ RelB st' rt'.
 Proof.
   intros [HR Hrev] Hv. unfold do_update, deal, update_batch. rewrite Hrev.
@@ -316,12 +314,12 @@ Proof.
   - do 4 eexists. fin_eq; close_rel HR.
   - set (rev := k_rev radapter rt + 1).
     assert (Hp : Forall bop_plain [CAS (encode key 0) (be64 rev) (be64 old) 0; Put (encode key rev) val 0]).
-    { repeat constructor; cbn [bop_plain]; [apply be64_nonempty|exact Hv]. }
+    { repeat constructor; cbn [bop_plain]; [apply HVP, be64_nonempty|exact Hv]. }
     destruct (rel_batch2 _ _ _ HR Hp) as (s1 & cl & cf & r1 & E1 & E1' & HR1 & _).
     cbn [a_batch radapter]. rewrite E1, E1'. do 4 eexists. fin_eq; close_rel HR1.
 Qed.
 
-Lemma rel_q_create st rt key val : RelB st rt -> val <> [] ->
+Lemma rel_q_create st rt key val : RelB st rt -> VP val ->
   exists st' rt' p ev, q_create A st key val = (st', p, ev) /\ q_create radapter rt key val = (rt', p, ev) /\ RelB st' rt'.
 Proof.
   intros HB Hv. unfold q_create.
@@ -329,7 +327,7 @@ Proof.
   destruct e as [[]|]; do 4 eexists; fin_eq; close_rel HB'.
 Qed.
 
-Lemma rel_q_update st rt key val prev : RelB st rt -> val <> [] ->
+Lemma rel_q_update st rt key val prev : RelB st rt -> VP val ->
   exists st' rt' p ev, q_update A st key val prev = (st', p, ev) /\ q_update radapter rt key val prev = (rt', p, ev) /\ RelB st' rt'.
 Proof.
   intros HB Hv. unfold q_update.
@@ -361,7 +359,7 @@ Proof.
       destruct (rev <=? modrev); [do 6 eexists; fin_eq; close_rel HR|].
       set (ex := if expected =? 0 then modrev else expected).
       assert (Hp : Forall bop_plain [CAS (encode key 0) (be64 rev ++ [0]) (be64 ex) 0; Put (encode key rev) tombstone 0]).
-      { repeat constructor; cbn [bop_plain]; [|discriminate]. intros H. apply app_eq_nil in H as [_ H]. discriminate. }
+      { repeat constructor; cbn [bop_plain]; apply HVP; [|discriminate]. intros H. apply app_eq_nil in H as [_ H]. discriminate. }
       destruct (rel_batch2 _ _ _ HR Hp) as (s1 & cl & cf & r1 & E1 & E1' & HR1 & _).
       cbn [a_batch radapter]. rewrite E1, E1'. do 6 eexists. fin_eq. close_rel HR1.
     - do 6 eexists. fin_eq. close_rel HR. }
@@ -372,29 +370,10 @@ Proof.
     do 4 eexists; fin_eq; split; assumption.
 Qed.
 
-(* a value read back from the reference map is not empty: Get cannot be fooled by a nil-for-empty engine *)
-Lemma bget_nonempty r key rev v mr : no_empty_vals r -> bget radapter r key rev = GOk v mr -> v <> [].
-Proof.
-  intros Hne. unfold bget, get_internal. cbn [a_iter radapter].
-  set (rv := if rev =? 0 then max64 else rev).
-  destruct (iter_all r (encode key rv) (encode key 0)) as [|[ik v0] t] eqn:E; cbn [map]; [discriminate|].
-  unfold mk_item. cbn [fst snd].
-  assert (Hin : In (ik, v0) r).
-  { assert (H : In (ik, v0) (iter_all r (encode key rv) (encode key 0))) by (rewrite E; left; reflexivity).
-    apply iter_all_in in H. tauto. }
-  unfold no_empty_vals in Hne. rewrite Forall_forall in Hne. specialize (Hne _ Hin). cbn [snd] in Hne.
-  destruct (decode ik) as [| |uk rr]; try discriminate.
-  destruct ((rr =? 0) || negb (beqb uk key)); [discriminate|].
-  destruct (beqb v0 tombstone); [discriminate|]. intros [= <- <-]. exact Hne.
-Qed.
-
+(* Get returns the key-value whenever the read succeeded: the value is not inspected *)
 Lemma rel_q_get st rt key rev : RelB st rt -> q_get A st key rev = q_get radapter rt key rev.
 Proof.
-  intros [HR Hrev]. unfold q_get. rewrite (rel_bget S _ _ key rev HR), Hrev.
-  destruct (bget radapter (k_st radapter rt) key rev) as [v mr|e mr] eqn:E; [|reflexivity].
-  destruct HR as (c & _ & _ & _ & _ & Hne).
-  pose proof (bget_nonempty _ _ _ _ _ Hne E) as Hv. cbn [a_nil_empty radapter andb].
-  destruct v; [congruence|]. rewrite andb_false_r. reflexivity.
+  intros [HR Hrev]. unfold q_get. rewrite (rel_bget S _ _ key rev HR), Hrev. reflexivity.
 Qed.
 
 (* ---------- List: the scan worker without compaction only reads ---------- *)
@@ -489,7 +468,7 @@ Qed.
 
 Definition point_ok (q : req) : Prop :=
   match q with
-  | QCreate _ v | QUpdate _ v _ => v <> []
+  | QCreate _ v | QUpdate _ v _ => VP v
   | QDelete _ _ | QGet _ _ | QList _ _ _ _ => True
   | QCompact _ | QCount _ _ | QStream _ _ _ => False
   end.
@@ -535,3 +514,12 @@ Theorem engine_independent_points A mA (SA : sim A mA) B mB (SB : sim B mB) pref
 Proof.
   intros HA HB Hok. rewrite (rel_run_history SA HA prefix init qs Hok), (rel_run_history SB HB prefix init qs Hok). reflexivity.
 Qed.
+
+End Values.
+
+(* TiKV needs the values to be non-empty *)
+Definition nonempty (v : bytes) : Prop := v <> [].
+Definition anyvalue (v : bytes) : Prop := True.
+
+Lemma plain_ok_tikv : plain_ok nonempty sim_tikv.
+Proof. intros ops H. cbn. eapply Forall_impl; [|exact H]. intros [] Ho; cbn in *; auto. Qed.
